@@ -1388,7 +1388,17 @@ class Inliner:
         tree = self.trees.get(modname)
         if tree is None:
             return None
+        cache = self.__dict__.setdefault("_sc_cache", {})
+        if (modname, name) in cache:
+            return cache[(modname, name)]
+        cache[(modname, name)] = None
+        cache[(modname, name)] = self._singleton_class_uncached(modname, name, tree)
+        return cache[(modname, name)]
+
+    def _singleton_class_uncached(self, modname, name, tree):
         binds = [s_ for s_ in tree.body if isinstance(s_, ast.Assign) and any(isinstance(t, ast.Name) and t.id == name for t in s_.targets)]
+        if len(binds) != 1:
+            return None
         stores = [n for n in ast.walk(tree) if isinstance(n, ast.Name) and n.id == name and isinstance(n.ctx, (ast.Store, ast.Del))]
         if len(binds) != 1 or len(stores) != 1 or any(isinstance(g, ast.Global) and name in g.names for g in ast.walk(tree)):
             return None
